@@ -59,7 +59,7 @@ class Case:
     def __init__(self, acc, rnd, tier, case, mode, focus, gen_kw=None, via=None):
         self.acc, self.rnd, self.tier, self.case, self.mode, self.focus = acc, rnd, tier, case, mode, focus
         kw = dict(TIER[tier]['gen'])
-        kw.update(p_shared_text=0.15, p_active_call=0.1, p_twin=0.15, p_odd_names=0.08,
+        kw.update(p_shared_text=0.15, p_active_call=0.1, p_twin=0.15, p_odd_names=0.08, p_hier_names=0.1,
                   priorities=(-1, 0, 0, 0, 1, 2) if rnd.random() < 0.85 else (-1000, 0, 0, 1000, 1000, 2 ** 70))
         kw.update(gen_kw or {})
         self.ch = gen_chart(rnd, mode=mode, **kw)
